@@ -1,5 +1,6 @@
 import ClusterVerif.Spec.C08
 import ClusterVerif.Model.C08Add
+import ClusterVerif.Model.C08Util
 import ClusterVerif.Gen.C08
 import Driver.Parse
 import Driver.C08Wire
@@ -194,6 +195,82 @@ def answerQ (ws : List String) : String :=
         else "ok arm=q-" ++ status ++ " trivial"
     | _, _ => "bad-case q-shape"
 
+/-! ### aq: AddParamsFromQuery on a typed parameter set -/
+
+def aqHexDigit (n : Nat) : Char := if n < 10 then Char.ofNat ('0'.toNat + n) else Char.ofNat ('A'.toNat + (n - 10))
+
+/-- the harness's string token of an ASCII string (`wire.StrTok`: letters, digits and `_` stay) -/
+def aqStrTok (s : String) : String :=
+  "~" ++ String.join (s.toList.map fun c =>
+    if c.isAlphanum || c == '_' then c.toString else String.ofList ['%', aqHexDigit (c.toNat / 16), aqHexDigit (c.toNat % 16)])
+
+def showAddX (x : Add.AddX) : KVs :=
+  let bt := fun (v : Bool) => if v then "1" else "0"
+  [ ("Local", bt x.local_), ("Recursive", bt x.recursive), ("Hidden", bt x.hidden), ("Wrap", bt x.wrap),
+    ("Shard", bt x.shard), ("StreamChannels", bt x.streamChannels), ("Format", aqStrTok x.format),
+    ("IPFSAddParams.Layout", aqStrTok x.layout), ("IPFSAddParams.Chunker", aqStrTok x.chunker),
+    ("IPFSAddParams.RawLeaves", bt x.rawLeaves), ("IPFSAddParams.Progress", bt x.progress),
+    ("IPFSAddParams.CidVersion", toString x.cidVersion), ("IPFSAddParams.HashFun", aqStrTok x.hashFun),
+    ("IPFSAddParams.NoCopy", bt x.noCopy) ]
+
+def splitSemi : List String → List String × List String
+  | [] => ([], [])
+  | ";" :: rest => ([], rest)
+  | w :: rest => let (a, b) := splitSemi rest; (w :: a, b)
+
+/-- which step of `AddParamsFromQuery` the model refuses a parameter set at (for the arm histogram) -/
+def aqErrArm (ps : Add.Params) : String :=
+  let g := Add.getP ps
+  if !(["trickle", "balanced", ""].contains (g "layout")) then "layout"
+  else if !(["car", "unixfs", ""].contains (g "format")) then "format"
+  else if ["local", "recursive", "hidden", "wrap-with-directory", "shard", "progress"].any (fun k => (Add.boolParam ps k false).isNone) then "bool"
+  else if (Add.intParam ps "cid-version" 0).isNone then "int"
+  else if !Add.isSha256 (if g "hash" != "" then g "hash" else "sha2-256") && Add.intParam ps "cid-version" 0 == some 0 &&
+          g "cid-version" != "" then "cidv0-hash"
+  else "bool-late"
+
+/-- what the accepted parameter set exercised -/
+def aqOkArm (ps : Add.Params) (x : Add.AddX) : String :=
+  let g := Add.getP ps
+  let keys := ["layout", "chunker", "hash", "format", "cid-version", "local", "recursive", "hidden", "wrap-with-directory",
+               "shard", "progress", "raw-leaves", "stream-channels", "nocopy"]
+  if keys.all (fun k => g k == "") then "defaults"
+  else if !Add.isSha256 x.hashFun && g "cid-version" == "" then "hash-moves-to-v1"
+  else if x.cidVersion > 0 && g "raw-leaves" != "" && !x.rawLeaves then "v1-raw-leaves-off"
+  else if x.cidVersion > 0 && g "raw-leaves" == "" then "v1-raw-default"
+  else if keys.any (fun k => g k != "" && g k != Add.getP (Add.toParams x) k) then "alt-spelling"
+  else "canonical"
+
+def answerAq (ws : List String) : String :=
+  match splitArrow ws with
+  | none => "bad-case arrow"
+  | some (pre, post) =>
+    let (qtoks, xtoks) := splitSemi pre
+    match (parseKVs qtoks).bind parseQuery, parseKVs xtoks, post with
+    | none, _, _ => "bad-case aq-pin-parameters"
+    | _, none, _ => "bad-case aq-add-parameters"
+    | some _, some _, ["panic"] => "propfail no_crash arm=aq-panic"
+    | some q, some xs, status :: outToks =>
+      match parseKVs outToks with
+      | none => "bad-case output-tokens"
+      | some out =>
+        if q.expireIn == some true && q.expireAt.isNone then "bad-case aq-clock-dependent" else
+        if !xs.all (fun kv => kv.2.startsWith "~") then "bad-case aq-value-token" else
+        let ps : Add.Params := xs.map fun kv => (kv.1, unStr kv.2)
+        let (r, arm) : Res KVs × String := match fromQuery q with
+          | .ok po => (match Add.fromParams ps with
+                       | some x => (.ok (showOpts { po with pinUpdate := none } "PinOptions." ++ showAddX x), "aq-ok-" ++ aqOkArm ps x)
+                       | none => (.decErr, "aq-err-" ++ aqErrArm ps))
+          | _ => (.decErr, "aq-err-pinopts")
+        -- the property clause: an accepted parameter set gives a value that can be written and read again unchanged
+        let cs := if status.startsWith "ok:" then fuzzClauses (if status == "ok:same" then "ok:reenc-ok" else if status == "ok:repanic" then "ok:reenc-panic" else "ok:reenc-err") else []
+        if !holdsAll cs then "propfail " ++ failedNames cs ++ " arm=" ++ arm ++ " re=" ++ status else
+        let st := if status == "err" then "decerr" else if status.startsWith "ok:" then "ok" else status
+        if !resMatches r st out then
+          "diff arm=" ++ arm ++ " first=" ++ (match r with | .ok kvs => firstDiff kvs out | _ => "status") ++ " model=" ++ (showRes r).take 300
+        else "ok arm=" ++ arm ++ (if status == "err" then " trivial" else "")
+    | _, _, _ => "bad-case aq-shape"
+
 /-! ### eq -/
 
 def splitBar (ws : List String) : List (List String) :=
@@ -237,6 +314,22 @@ def sameNameSet (s : String) (expected : List String) : Bool :=
   let got := if expected == [""] then [s] else s.splitOn ","
   (sortS got) == (sortS expected)
 
+def parsePeerOpt (t : String) : Option (Option Nat) :=
+  if t == "p-" then some none else if t.startsWith "p" then ((t.drop 1).toString.toNat?).map some else none
+
+def parseItem (t : String) : Option Util.SItem :=
+  if t == "e" then some .empty else if t == "j" || t == "k" then some .junk
+  else if t.startsWith "b" then ((t.drop 1).toString.toNat?).map .b58
+  else if t.startsWith "c" then ((t.drop 1).toString.toNat?).map .cid
+  else if t.startsWith "s" then ((t.drop 1).toString.toNat?).map fun _ => .junk
+  else none
+
+def showItem : Util.SItem → String
+  | .b58 n => "b" ++ toString n
+  | .cid n => "c" ++ toString n
+  | .empty => "e"
+  | .junk => "?"
+
 def answerStr (ws : List String) : String :=
   match ws with
   | [kind, arg, "=>", "panic"] => "propfail no_crash arm=str-" ++ kind ++ " " ++ arg.take 20
@@ -276,6 +369,23 @@ def answerStr (ws : List String) : String :=
       if unStr s != typeString v || b != m then "diff arm=str-pt model=" ++ typeString v ++ " " ++ toString m
       else "ok arm=str-pt" ++ (if [1, 2, 4, 8, 16, 30].contains v then "" else " trivial")
     | _, _ => "bad-case str-pt"
+  | ["p2s", arg, "=>", its, back] =>
+    match (listToks arg).mapM parsePeerOpt with
+    | none => "bad-case str-p2s"
+    | some ps =>
+      let strs := Util.peersToStrings ps
+      let m := showList (strs.map showItem) ++ " " ++ showList ((Util.stringsToPeers strs).map fun n => "p" ++ toString n)
+      if m != its ++ " " ++ back then "diff arm=str-p2s model=" ++ m
+      else "ok arm=str-p2s" ++ (if ps.contains none then "-empty-id" else "")
+  | ["s2p", arg, "=>", peers, its] =>
+    match (listToks arg).mapM parseItem with
+    | none => "bad-case str-s2p"
+    | some ss =>
+      let ps := Util.stringsToPeers ss
+      let m := showList (ps.map fun n => "p" ++ toString n) ++ " " ++ showList ((Util.peersToStrings (ps.map some)).map showItem)
+      if m != peers ++ " " ++ its then "diff arm=str-s2p model=" ++ m
+      else "ok arm=str-s2p" ++ (if ss.any (fun i => match i with | .cid _ => true | _ => false) then "-cid-form"
+                                 else if ps.length < ss.length then "-skipped" else "")
   | [kind, arg, "=>", res] =>
     match res.toNat? with
     | none => "bad-case str-parse-result"
@@ -310,6 +420,7 @@ def answer (ws : List String) : String :=
   match ws with
   | "rt" :: rest => answerRt rest
   | "q" :: rest => answerQ rest
+  | "aq" :: rest => answerAq rest
   | "eq" :: rest => answerEq rest
   | "str" :: rest => answerStr rest
   | "fuzz" :: rest => answerFuzz rest
